@@ -1,11 +1,11 @@
 #!/bin/sh
 # Usage: seed_report.sh [tier] [jobs]  -- run the registered tier of the owning check on every seeded change (each in a private
 # scratch worktree of /repo HEAD with VERIF_REPO pointing at it) and write seeded/RESULTS.md.
-TIER=${1:-quick}; JOBS=${2:-4}
+TIER=${1:-quick}; JOBS=${2:-4}; OUT=${3:-seeded/RESULTS.md}
 cd /verif
 ls -d seeded/C*-m* | xargs -P $JOBS -I{} sh -c 'VERIF_PROCS=4 tools/try_seed_wt.sh {} '$TIER' > /verif/.scratch/seedres_$(basename {}).txt 2>&1'
 {
-  echo "# Seeded changes vs. the registered $TIER tier (repo HEAD $(git -C /repo rev-parse --short HEAD), $(date -u +%F))"
+  echo "# Seeded changes vs. the registered $TIER tier, VERIF_SEED=${VERIF_SEED:-1} (repo HEAD $(git -C /repo rev-parse --short HEAD), $(date -u +%F))"
   echo
   echo "| seed | property | what was changed | needs | result |"
   echo "|---|---|---|---|---|"
@@ -21,6 +21,6 @@ cl=lambda s: ' '.join(str(s).split()).replace('|','/')[:300]
 print(f"| {sys.argv[1].split('/')[-1]} | {m['property']} | {cl(m['summary'])} | {cl(m['needs'])} | {res}{sub} |")
 PY
   done
-} > seeded/RESULTS.md
+} > $OUT
 rm -f /verif/.scratch/seedres_*.txt; rm -rf /tmp/c11_m*
-grep -c CAUGHT seeded/RESULTS.md; grep "MISSED\|HARNESS\|NEEDS" seeded/RESULTS.md | cut -c1-120
+grep -c CAUGHT $OUT; grep "MISSED\|HARNESS\|NEEDS" $OUT | cut -c1-120
